@@ -70,6 +70,13 @@ def symbolic_storage_genericity(run):
         "scalar-after-scalar": [("PUSH", 5), ("PUSH", 0), "SSTORE", ("PUSH", 1), "SLOAD"] + out(0),
         "array-other-index": [("PUSH", 5)] + arr(1, [("PUSH", 0)]) + ["SSTORE"] + arr(1, [("PUSH", 1)]) + ["SLOAD"] + out(0),
         "nothing-written": mp(2, cd1) + ["SLOAD"] + out(0),
+        # the first access happens after a fork, on both sides (the forked copy of the storage is still symbolic)
+        "fork-then-map-load": cd1 + [("PUSHL", "t"), "JUMPI"] + mp(2, cd0) + ["SLOAD"] + out(0) + [
+            ("PUSH", 32), ("PUSH", 0x400), "RETURN", ("LABEL", "t")] + mp(2, cd0) + ["SLOAD"] + out(0),
+        "fork-then-scalar-load": cd1 + [("PUSH", 7), "LT", ("PUSHL", "t"), "JUMPI", ("PUSH", 3), "SLOAD"] + out(0) + [
+            ("PUSH", 32), ("PUSH", 0x400), "RETURN", ("LABEL", "t"), ("PUSH", 3), "SLOAD"] + out(0),
+        "store-fork-then-other-load": [("PUSH", 5)] + mp(2, cd0) + ["SSTORE"] + cd1 + [("PUSHL", "t"), "JUMPI"] + mp(3, cd0) + ["SLOAD"] + out(0) + [
+            ("PUSH", 32), ("PUSH", 0x400), "RETURN", ("LABEL", "t")] + mp(3, cd0) + ["SLOAD"] + out(0),
         "two-stores-then-third": [("PUSH", 5)] + mp(2, cd0) + ["SSTORE", ("PUSH", 6)] + mp(2, cd0 + [("PUSH", 1), "ADD"]) + [
             "SSTORE"] + mp(2, cd0 + [("PUSH", 2), "ADD"]) + ["SLOAD"] + out(0),
     }
